@@ -243,7 +243,10 @@ class Instance(Component):
                 upper_bound, "upper_bound", 0, 1_000_000_000_000_000))
         if lb > ub:
             raise ValueError(f"lower bound = {lb} > upper_bound = {ub}!")
-        dtype: Final[np.dtype] = int_range_to_dtype(min_value=0, max_value=ub)
+        # the type must hold all matrix entries, not only the upper bound
+        # (the upper bound is 0 if one of the matrices contains only zeros)
+        dtype: Final[np.dtype] = int_range_to_dtype(min_value=0, max_value=max(
+            ub, int(distances.max()), int(flows.max())))
         #: the scale of the problem
         self.n: Final[int] = shape[0]
         if name is None:
